@@ -111,6 +111,7 @@ func EstablishPDU(sst int32, sd string, ue *tglib.RanUeContext, conn *sctp.SCTPC
 	_, err = conn.Write(sendMsg)
 	ManageError("Error establishing PDU", err)
 
+	verifReportSession(ue.Supi, clientip, teid, upfip) // no-op unless built with -tags verif
 	return clientip, teid, upfip
 }
 
